@@ -1,5 +1,6 @@
 import Proofs.Lemmas.Find
 import Proofs.Lemmas.Headers
+import Proofs.Lemmas.FindPlanted
 /-!
 # C14 — search() finds every embedded cabinet, at any offset, with any buffer size
 
@@ -30,6 +31,44 @@ theorem C14_sound (n : Nat) (sv : Bool) (file : Bytes) :
     have := (readHeaders_fields file off sv c h).1
     rw [this]; exact h
 
+/-- **completeness**: a cabinet planted behind any bytes that do not contain the four signature bytes "MSCF" (they may
+    contain any prefix of it, also directly in front of the cabinet) and whose two length fields pass the scanner's
+    "likely cabinet" test is the first thing `search()` reports — for every search-buffer size, strict or salvage,
+    whatever follows the cabinet's header area -/
+theorem C14_finds_planted (n : Nat) (hn : 1 ≤ n) (sv : Bool) (junk rest : Bytes)
+    (hj : ¬ sig <:+: junk) (c : Cabinet) (hc : readHeaders (junk ++ rest) junk.length sv = .ok c)
+    (hpl : plausible (junk ++ rest).length sv ⟨junk.length, u32At rest 8, u32At rest 16⟩ = true) :
+    ∃ tail, (find n sv (junk ++ rest)).1 = c :: tail := by
+  -- the header bytes
+  obtain ⟨_, buf, r, hrd, hsig, _⟩ := readHeaders_fields _ _ _ _ hc
+  have hd : (junk ++ rest).drop junk.length = rest := List.drop_left ..
+  have hbuf : buf = rest.take 36 ∧ 36 ≤ rest.length := by
+    simp only [Rd.readExact, Rd.read, hd] at hrd
+    by_cases hl : (rest.take 36).length = 36
+    · rw [if_pos hl] at hrd
+      simp only [Option.some.injEq, Prod.mk.injEq] at hrd
+      rw [List.length_take] at hl
+      exact ⟨hrd.1.symm, by omega⟩
+    · rw [if_neg hl] at hrd; contradiction
+  have hsig' : u32At rest 0 = 0x4643534D := by
+    rw [← hsig, hbuf.1]
+    simp only [u32At, byteAt, List.getD_eq_getElem?_getD, List.getElem?_take]
+    simp
+  -- the scan: junk, then the header
+  obtain ⟨st', hs1, hst'⟩ := scan_junk junk 0 {} (by simp) (by simpa using hj)
+  have hs2 := scan_header rest (by omega) hsig' junk.length st' hst'
+  have hscan : scanChunks n (junk ++ rest) 0 {} = some ⟨junk.length, u32At rest 8, u32At rest 16⟩ := by
+    rw [scanChunks_eq_scanAll n hn]
+    unfold scanAll
+    rw [List.drop_zero, scanBuf_append, hs1]
+    simp only [hs2, Nat.zero_add]
+  have hat : (atHit sv (junk ++ rest) ⟨junk.length, u32At rest 8, u32At rest 16⟩ []).2 = [c] := by
+    unfold atHit
+    simp only [hpl, ↓reduceIte, hc]
+  obtain ⟨tail, ht⟩ := findLoop_hit n sv (junk ++ rest) 0 [] _ hscan
+  rw [hat] at ht
+  exact ⟨tail, ht⟩
+
 -- non-vacuity: behind the filler "MM" the scanner (fixed as of the D8 repair) reports the candidate
 -- at offset 2 with the right length fields, and the 62-byte stored cabinet there parses
 def exampleCab : Bytes :=
@@ -40,5 +79,15 @@ def exampleCab : Bytes :=
 example : scanAll ([0x4D, 0x4D] ++ exampleCab) 0 {} = some ⟨2, 62, 44⟩ := by decide
 example : (readHeaders ([0x4D, 0x4D] ++ exampleCab) 2 false).toOption.map (·.files.length) = some 1 := by
   decide
+
+-- … and the completeness theorem's premises hold for it: the filler "MM" contains no signature, the cabinet parses, its
+-- length fields are plausible
+example : ¬ sig <:+: ([0x4D, 0x4D] : Bytes) ∧ (readHeaders ([0x4D, 0x4D] ++ exampleCab) 2 false).toOption.isSome = true ∧
+    plausible ([0x4D, 0x4D] ++ exampleCab).length false ⟨2, u32At exampleCab 8, u32At exampleCab 16⟩ = true := by
+  refine ⟨?_, by decide, by decide⟩
+  rintro ⟨s, t, h⟩
+  have := congrArg List.length h
+  simp [sig] at this
+  omega
 
 end MsPack.Cab
